@@ -12,6 +12,7 @@ import (
 
 	"github.com/go-task/task/v3/errors"
 	"github.com/go-task/task/v3/internal/filepathext"
+	"github.com/go-task/task/v3/internal/slicesext"
 	"github.com/go-task/task/v3/internal/sort"
 )
 
@@ -209,11 +210,18 @@ func (t1 *Tasks) Merge(t2 *Tasks, include *Include, includedTaskfileVars *Vars) 
 }
 
 // setDefaults gives every task that does not declare its own method or run
-// option the given one (if any), and makes every task silent if silent is
-// true. These are the defaults of the Taskfile the tasks are declared in.
-// Calling it more than once with the same values changes nothing.
-func (tasks *Tasks) setDefaults(method string, run string, silent bool) {
+// option the given one (if any), makes every task silent if silent is true,
+// and adds the given shell options to the ones of the task. These are the
+// defaults of the Taskfile the tasks are declared in. Calling it more than
+// once with the same values changes nothing.
+func (tasks *Tasks) setDefaults(method string, run string, silent bool, set []string, shopt []string) {
 	for task := range tasks.Values(nil) {
+		if len(set) > 0 {
+			task.Set = slicesext.UniqueJoin(set, task.Set)
+		}
+		if len(shopt) > 0 {
+			task.Shopt = slicesext.UniqueJoin(shopt, task.Shopt)
+		}
 		if task.Method == "" {
 			task.Method = method
 		}
